@@ -44,7 +44,7 @@ pub fn run_deps_case(case: &Case, env: &Env, prop: &str) -> CaseOut {
     let extra_spaces = if msvc { t.below(4) } else { 0 };
     // spaces inside names cannot be expressed in a depfile here: keep that name for msvc only
     let hdr = if (!msvc || both) && hdr.contains(' ') { "hdr.h" } else { hdr };
-    for f in [hdr, other, "in.c", "gen.in"] {
+    for f in [hdr, other, "in.c", "gen.in", "dep_only.h"] {
         if let Some(p) = std::path::Path::new(f).parent() {
             if !p.as_os_str().is_empty() {
                 std::fs::create_dir_all(p).unwrap();
@@ -57,13 +57,13 @@ pub fn run_deps_case(case: &Case, env: &Env, prop: &str) -> CaseOut {
         tick += 1;
         util::set_mtime(f, UNIX_EPOCH + Duration::from_secs(1_700_000_000 + tick * 10));
     };
-    for f in [hdr, other, "in.c", "gen.in"] {
+    for f in [hdr, other, "in.c", "gen.in", "dep_only.h"] {
         bump(f);
     }
     let (s_hdr, s_gen, s_other) = (spell(hdr, k1), spell("gen.h", k2), spell(other, k3));
     let nl = if crlf { "\\r\\n" } else { "\\n" };
     let dep_part = format!(
-        "printf 'out.o: %s \\\\\\n  %s' '{h}' '{g}' > out.o.d ; if test -f {o}; then printf ' %s' '{os}' >> out.o.d; fi ; printf '\\n' >> out.o.d ; ",
+        "printf 'out.o: %s \\\\\\n  %s' '{h}' '{g}' > out.o.d ; if test -f {o}; then printf ' %s' '{os}' >> out.o.d; fi ; printf ' dep_only.h\\n' >> out.o.d ; ",
         h = s_hdr,
         g = s_gen,
         o = other,
@@ -142,6 +142,12 @@ pub fn run_deps_case(case: &Case, env: &Env, prop: &str) -> CaseOut {
     std::fs::remove_file(other).unwrap();
     step("rebuild after a reported header vanished", 0, "ran 1 task", &mut trace);
     step("final rebuild without changes", 0, "no work to do", &mut trace);
+    if both {
+        // a header that only the depfile names (the notes do not mention it) is a dependency all the same
+        bump("dep_only.h");
+        step("rebuild after touching the header named only by the depfile", 0, "ran 1 task", &mut trace);
+        step("last rebuild without changes", 0, "no work to do", &mut trace);
+    }
     out.viols = viols.into_inner();
     out.evals = 7;
     out.classes = vec![if both { "msvc+depfile".to_string() } else if msvc { "msvc".to_string() } else { "depfile".to_string() }];
